@@ -30,27 +30,28 @@ Print Assumptions C01_one_frame_any_length_form.
    reference's messages -- one event per message, in completion order, with the reference's payload bytes (Text: the
    UTF-8 bytes, validity established; Binary/Ping/Pong byte-exact) -- and the connection is again between two frames
    with the reference's open fragments, so the statement composes over successive reads.
-   Hypotheses about the environment: the application is passive (sends nothing from its event handlers; the session's
-   own automatic Pong IS in the model) and no ping timeout is configured (otherwise Unresponsive may legally
+   Hypotheses about the environment: the application is [benign] -- whatever it has observed, it reacts with sends only
+   (text, binary, ping, pong; any number, at any event), it does not call close() and does not leave the loop; the
+   session's own automatic Pong is in the model -- and no ping timeout is configured (otherwise Unresponsive may legally
    intervene: C07).  Close frames are not in this theorem: see C08/C09 and the correspondence check. *)
-Theorem C01_delivery : forall cf app, passive app -> zpos (c_ping_timeout cf) = None ->
+Theorem C01_delivery : forall cf app, benign app -> zpos (c_ping_timeout cf) = None ->
   forall fs lfs c open ms open',
   idle c open -> data_head open -> Forall plain fs -> forms_ok fs lfs ->
   ref_messages open fs = Some (ms, open') ->
   exists c', feedf cf app c (encode_all fs lfs) = (c', SOk) /\ idle c' open' /\ data_head open' /\
              msg_events (k_tr c') = rev (map ev_of ms) ++ msg_events (k_tr c) /\ k_sock c' = k_sock c /\
-             wfacts cf c c' ms.       (* what is written meanwhile: see C14 *)
+             (passive app -> wfacts cf c c' ms).       (* what is written meanwhile: see C14 *)
 Proof. exact deliver_frames. Qed.
 Print Assumptions C01_delivery.
 
 (* ... however the transport cuts the encoded stream into reads (with C02) *)
-Theorem C01_delivery_any_chunking : forall cf app, passive app -> zpos (c_ping_timeout cf) = None ->
+Theorem C01_delivery_any_chunking : forall cf app, benign app -> zpos (c_ping_timeout cf) = None ->
   forall fs lfs ds c open ms open',
   idle c open -> data_head open -> Forall plain fs -> forms_ok fs lfs ->
   ref_messages open fs = Some (ms, open') -> concat ds = encode_all fs lfs ->
   exists c', feed_chunks cf app c ds = (c', SOk) /\ idle c' open' /\ data_head open' /\
              msg_events (k_tr c') = rev (map ev_of ms) ++ msg_events (k_tr c) /\ k_sock c' = k_sock c /\
-             wfacts cf c c' ms.
+             (passive app -> wfacts cf c c' ms).
 Proof. exact deliver_frames_chunked. Qed.
 Print Assumptions C01_delivery_any_chunking.
 
@@ -59,7 +60,7 @@ Print Assumptions C01_delivery_any_chunking.
    selector may time out any number of times, with the session's Poll events and automatic Pings going on.  From a
    connection between two frames whose socket is open, the loop yields exactly the reference's messages and is left
    waiting for more (TBlocked), again between two frames. *)
-Theorem C01_event_loop_delivery : forall cf app, passive app -> zpos (c_ping_timeout cf) = None ->
+Theorem C01_event_loop_delivery : forall cf app, benign app -> zpos (c_ping_timeout cf) = None ->
   forall steps c open fs lfs ms open',
   Forall quiet_step steps -> idle c open -> data_head open -> k_sock c = true ->
   Forall plain fs -> forms_ok fs lfs -> ref_messages open fs = Some (ms, open') ->
@@ -101,12 +102,12 @@ Definition fs0 : list frame :=
 Definition lfs0 : list lenform := [L64; L16; L7; L16; L16; L64].
 
 Example C01_nonvacuous :
-  passive app0 /\ zpos (c_ping_timeout cf0) = None /\ idle c0 [] /\ data_head [] /\ Forall plain fs0 /\ forms_ok fs0 lfs0 /\
+  benign app0 /\ zpos (c_ping_timeout cf0) = None /\ idle c0 [] /\ data_head [] /\ Forall plain fs0 /\ forms_ok fs0 lfs0 /\
   ref_messages [] fs0 = Some ([SPing (str "p"%string); SText (str "Hello"%string); SBinary (repeat x00 200); SPong []], []) /\
   msg_events (k_tr (fst (feedf cf0 app0 c0 (encode_all fs0 lfs0)))) =
     rev [EvPing (str "p"%string); EvText (str "Hello"%string); EvBinary (repeat x00 200); EvPong []] ++ msg_events (k_tr c0).
 Proof.
-  split; [intros tr; reflexivity|]. split; [reflexivity|].
+  split; [intros tr; constructor|]. split; [reflexivity|].
   split. { unfold idle. vm_compute. do 5 (split; [reflexivity|]). split; [constructor|]. exists UAcc. split; reflexivity. }
   split; [exact I|].
   split. { repeat constructor; vm_compute; reflexivity. }
